@@ -509,8 +509,10 @@ def add_init_failures(prop, w, merged):
     """A freshly generated package whose init() panics is a violation of C12 (output does not work)
     and C19 (descriptor/type registration is incoherent); other properties carry on without it."""
     for ip, out in (getattr(w, 'init_failures', None) or {}).items():
-        if prop in ('C12', 'C19'):
-            merged['violations'].append(dict(prop=prop, key=('gen' if prop == 'C12' else 'api') + '/package-init-panics', type=ip,
+        if True:
+            # (every property quantifies over the freshly generated types: a package that cannot even be imported
+            # fails all of them for its types)
+            merged['violations'].append(dict(prop=prop, key=('gen' if prop == 'C12' else 'api' if prop == 'C19' else 'subject') + '/package-init-panics', type=ip,
                                              detail='the generated package %s panics while initialising (registering its descriptors and Go types):\n%s' % (ip, out), replay=dict(engine='init', package=ip)))
             merged['n_violations'] += 1
         else:
@@ -797,6 +799,7 @@ def check_total(prop, tier, seed, repo, keep):
         merged = merge_reports(reps + dreps, prop)
         merged['violations'] += extra_viol
         merged['n_violations'] += len(extra_viol)
+        add_init_failures(prop, w, merged)
         for k, v in inconclusive.items():
             merged['inconclusive'][k] = merged['inconclusive'].get(k, 0) + v
         return finish(prop, tier, seed, t0, merged, RULES[prop], ASSUME_C06, 2000, 1000, extra=gen_summary(w))
@@ -812,6 +815,8 @@ def check_isolated_engine(prop, tier, seed, repo, keep):
         merged = merge_reports(reps, prop)
         merged['violations'] += viol
         merged['n_violations'] += len(viol)
+        if cfg.get('fresh', True):
+            add_init_failures(prop, w, merged)
         for k, v in inc.items():
             merged['inconclusive'][k] = merged['inconclusive'].get(k, 0) + v
         fl = FLOORS[prop]
@@ -901,7 +906,7 @@ def check_conc(prop, tier, seed, repo, keep):
             reps += w.run_engine(bins['race'], 'conc', shards=4, timeout=3000,
                                  env={'GOMAXPROCS': '8', 'GORACE': 'halt_on_error=0 exitcode=0 log_path=%s history_size=2' % logbase})
         merged = merge_reports(reps, prop)
-        add_engine_crashes(prop, w, merged)
+        add_init_failures(prop, w, merged)
         blocks = parse_race_logs(logbase + '.*')
         sigs = {}
         harness_only = 0
